@@ -47,6 +47,34 @@ theorem stale_timeout_is_noop (E : Env) (m : Id) (inc tok : Nat) (c : Ctx) (h : 
   unfold handleTimer
   simp [h]
 
+/-- **Every epoch change makes the pending timeouts stale.** `reset` (identity change, auto-rejoin,
+    `reuse_down_identity`), going Defunct and going Idle each move the timer token to a value different from the one
+    before — over the counter arithmetic generated from the three sites of the source — so a suspicion timeout
+    raised before the change carries another token and is ignored without any effect (`stale_timeout_is_noop`). A
+    token that saturated instead of wrapping would let such a timeout through once it sits at 255. -/
+theorem epoch_change_makes_pending_timeouts_stale (E : Env) (m : Id) (inc : Nat) (c : Ctx) :
+    (∀ c', reset c = .ok () c' → handleTimer E (.s2d m inc c.s.token) c' = .ok () c') ∧
+    (∀ c', becomeUndead c = .ok () c' → handleTimer E (.s2d m inc c.s.token) c' = .ok () c') ∧
+    (∀ c', becomeDisconnected E c = .ok () c' → handleTimer E (.s2d m inc c.s.token) c' = .ok () c') := by
+  have hw : ∀ n, wrapAdd8 n ≠ n := by intro n; unfold wrapAdd8; omega
+  refine ⟨fun c' h => ?_, fun c' h => ?_, fun c' h => ?_⟩
+  · refine stale_timeout_is_noop E m inc c.s.token c' ?_
+    simp [reset] at h
+    rw [← h]
+    exact hw _
+  · refine stale_timeout_is_noop E m inc c.s.token c' ?_
+    simp [becomeUndead] at h
+    rw [← h]
+    exact hw _
+  · refine stale_timeout_is_noop E m inc c.s.token c' ?_
+    unfold becomeDisconnected at h
+    simp only [bind_run, getS_run] at h
+    split at h
+    · simp [panicAt] at h
+    · simp at h
+      rw [← h]
+      exact hw _
+
 /-- A cancelled timeout (current epoch, but the conditional application did not succeed) has no effect
     at all: same state, no datagram — in particular no TurnUndead —, no timer, no notification.
     (`hconn`: the connection state agrees with the number of active members, an invariant of reachable
